@@ -63,6 +63,7 @@ class DaemonLayer:
             if not s and (cls.startswith('asan') or cls == 'ubsan'): s = 'undefined behaviour in the real code (sanitizer): ' + cls
             if s: V.append(dict(sig=s, at=len(sim['ops']) - 1, detail=sim['stderr'][-1200:]))
         V.extend(sleeping_calls(sim, 'C05/C04'))
+        if not getattr(self, 'factories', None): V.extend(delays_as_stated(sim))
         if self.leaks:
             td = sim.get('teardown')
             if td is not None and 'DIED' in td:
@@ -143,6 +144,36 @@ def sleeping_calls(sim, prop='C05'):
                 out.append(dict(sig='%s the daemon sleeps in %s() on a blocking descriptor: all clients and devices wait' % (prop, l.split()[1]), at=i, line=l)); break
         if out: break
     return out
+
+
+
+def delays_as_stated(sim):
+    """every `delay <seconds>` of the specifications a run's configuration includes is loaded with its stated time (the file text is
+    read here, independently of the parser whose result the model is handed): "a delay lasts at least its stated time" starts there"""
+    import re as _re
+    try:
+        conf = open(daemon.conf_path(sim['conf'])).read()
+    except Exception:
+        return []
+    def strip(text):
+        out = []
+        for line in text.split('\n'):
+            q = False; buf = ''
+            for ch in line:
+                if ch == '"': q = not q
+                if ch == '#' and not q: break
+                buf += ch
+            out.append(buf)
+        return '\n'.join(out)
+    want = []
+    for inc in _re.findall(r'include\s+"([^"]+)"', conf):
+        try: want += [round(float(x) * 1000000) for x in _re.findall(r'\bdelay\s+([0-9]*\.?[0-9]+)', strip(open(inc, errors='replace').read()))]
+        except OSError: return []
+    got = [int(x) for l in sim['dump'] if l.startswith('S ') for x in _re.findall(r' delay (\d+)', l)]
+    # a specification may be included without being used by a device: then none of its scripts is in the dump
+    if want and got and sorted(got) != sorted(want) and len(got) == len(want):
+        return [dict(sig='C08 a delay of the specification is not loaded with its stated time', at=0, stated_us=sorted(want)[:8], loaded_us=sorted(got)[:8])]
+    return []
 
 
 def default_deaths(cls):
